@@ -63,6 +63,9 @@ def gen_items(rng, path):
 def run_case(rec, case):
     rng = gen.mkrng('c04', case['seed'], case['i'])
     srv = rng.choice(['T', 'A'])
+    if srv == 'A' and case.get('aio'):
+        srv = case['aio']    # asyncio server behind the aiohttp adapter
+        rec.count('histories_on_aiohttp_adapter')
     asyncm = rng.random() < 0.5
     path = rng.choice(['post', 'post', 'ws', 'ws', 'ws-upgraded',
                        'post-mid-upgrade', 'dead'])
@@ -326,6 +329,8 @@ def run_shard(spec):
     rec = Rec()
     cases = [{'seed': spec['seed'], 'i': spec['shard'] * 1000000 + k}
              for k in range(spec['n'])]
+    for c in cases[::2]:
+        c['aio'] = 'H'
     scen.run_cases(rec, cases, run_case)
     return rec.result()
 
